@@ -2,7 +2,17 @@
   C16/Driver — line protocol front end (core-only).
   request:  <op> <args…>      reply:  <model> <spec> <dev>
 
-    num <t> <n>        call a Go `func(T)` with the JavaScript number n (Go payload kind given)
+    num <t> <n>                          call a Go `func(T)` with the JavaScript number n (Go payload kind given)
+    call <F|V> <k> <t1>…<tk> <a1>…<am>   call a Go function with k parameter types (V: last is the element type of `...T`)
+    store <t> <v>                        `s[0] = v` on a bridged `[]T`, then read s[0] on the Go side
+    slice <t> <cap> <e1,e2,…|-> <ops>    history on a bridged []T (ops separated by `;`)
+    map <t> <k=e,…|-> <ops>              history on a bridged map[string]T
+    struct <T{…}> <ops>                  history on a bridged *struct
+    field <T{…}> <name>                  fieldIndexByName
+    ret <k>                              a Go function returning k values
+
+  types : bool str any i8…uint f32 f64 S(t) M(t) P(t) T{name:tag:anon:t;…}
+  values: u n b:0 b:1 i64:5 f:hex f32:hex s:hex A[v,_,v] O{key=v,…}
 -/
 import OttoVerif.Base.Proto
 import OttoVerif.C16.Spec
@@ -40,9 +50,124 @@ def resOut {α} (f : α → String) : Res α → String
   | .typeErr => "throw:TypeError"
   | .goPanic => "gopanic"
 
-/-! deviation regions – decidable predicates over the request -/
+/-! ### parsing of types and values (recursive descent with fuel) -/
 
-/-- the call path rounds silently when the target is a float type -/
+def isDelim (c : Char) : Bool := c = ',' ∨ c = ';' ∨ c = '(' ∨ c = ')' ∨ c = '[' ∨ c = ']' ∨ c = '{' ∨ c = '}' ∨ c = '='
+
+def atom (cs : List Char) : String × List Char := (String.ofList (cs.takeWhile (!isDelim ·)), cs.dropWhile (!isDelim ·))
+
+def upTo (d : Char) (cs : List Char) : String × List Char :=
+  (String.ofList (cs.takeWhile (· ≠ d)), (cs.dropWhile (· ≠ d)).drop 1)
+
+def asciiStr (s : String) : Str := s.toList.map Char.toNat
+
+mutual
+def pType : Nat → List Char → Option (GT × List Char)
+  | 0, _ => none
+  | f+1, cs =>
+    match cs with
+    | 'S' :: '(' :: r => do let (t, r) ← pType f r; match r with | ')' :: r => some (.slice t, r) | _ => none
+    | 'M' :: '(' :: r => do let (t, r) ← pType f r; match r with | ')' :: r => some (.map t, r) | _ => none
+    | 'P' :: '(' :: r => do let (t, r) ← pType f r; match r with | ')' :: r => some (.ptr t, r) | _ => none
+    | 'T' :: '{' :: r => do let (fs, r) ← pFields f r; some (.struct fs, r)
+    | _ =>
+      let (a, r) := atom cs
+      if a = "bool" then some (.bool, r) else if a = "str" then some (.str, r) else if a = "any" then some (.any, r)
+      else (nt? a).map (fun t => (.num t, r))
+def pFields : Nat → List Char → Option (Fields × List Char)
+  | 0, _ => none
+  | f+1, cs =>
+    match cs with
+    | '}' :: r => some (.nil, r)
+    | _ =>
+      let (name, r) := upTo ':' cs
+      let (tag, r) := upTo ':' r
+      let (anon, r) := upTo ':' r
+      do
+        let (t, r) ← pType f r
+        match r with
+        | ';' :: r => do let (rest, r) ← pFields f r; some (.cons (asciiStr name) (asciiStr tag) (anon = "1") t rest, r)
+        | '}' :: r => some (.cons (asciiStr name) (asciiStr tag) (anon = "1") t .nil, r)
+        | _ => none
+end
+
+def type? (s : String) : Option GT :=
+  match pType 64 s.toList with
+  | some (t, []) => some t
+  | _ => none
+
+mutual
+def pJV : Nat → List Char → Option (JV × List Char)
+  | 0, _ => none
+  | f+1, cs =>
+    match cs with
+    | 'A' :: '[' :: r => do let (es, r) ← pJVs f r; some (.arr es, r)
+    | 'O' :: '{' :: r => do let (ps, r) ← pJPs f r; some (.obj ps, r)
+    | _ =>
+      let (a, r) := atom cs
+      if a = "u" then some (.undef, r) else if a = "n" then some (.null, r)
+      else if a = "b:0" then some (.bool false, r) else if a = "b:1" then some (.bool true, r)
+      else match a.splitOn ":" with
+        | ["s", h] => (bytes? h).map (fun b => (.str b, r))
+        | ["s"] => some (.str [], r)
+        | _ => (num? a).map (fun n => (.num n, r))
+def pJVs : Nat → List Char → Option (JVs × List Char)
+  | 0, _ => none
+  | f+1, cs =>
+    match cs with
+    | ']' :: r => some (.nil, r)
+    | ',' :: r => pJVs f r
+    | '_' :: r => do let (rest, r) ← pJVs f r; some (.hole rest, r)
+    | _ => do let (v, r) ← pJV f cs; let (rest, r) ← pJVs f r; some (.cons v rest, r)
+def pJPs : Nat → List Char → Option (JPs × List Char)
+  | 0, _ => none
+  | f+1, cs =>
+    match cs with
+    | '}' :: r => some (.nil, r)
+    | ',' :: r => pJPs f r
+    | _ =>
+      let (k, r) := upTo '=' cs
+      do let (v, r) ← pJV f r; let (rest, r) ← pJPs f r; some (.cons (asciiStr k) v rest, r)
+end
+
+def jv? (s : String) : Option JV :=
+  match pJV 64 s.toList with
+  | some (v, []) => some v
+  | _ => none
+
+/-! ### printing Go values -/
+
+def insertSorted (s : String) : List String → List String
+  | [] => [s]
+  | a :: r => if s < a then s :: a :: r else a :: insertSorted s r
+
+def sortStrings (l : List String) : List String := l.foldl (fun acc s => insertSorted s acc) []
+
+mutual
+def gvOut : GV → String
+  | .bool b => if b then "b:1" else "b:0"
+  | .num n => numOut n
+  | .str s => "s:" ++ bytesOut s
+  | .anyNil => "nil"
+  | .any v => "any(" ++ gvOut v ++ ")"
+  | .ptrNil => "P.nil"
+  | .ptr v => "P(" ++ gvOut v ++ ")"
+  | .slice es => "S[" ++ ",".intercalate (gvsOut es) ++ "]"
+  | .map ps => "M{" ++ ",".intercalate (sortStrings (gpsOut ps)) ++ "}"
+  | .struct fs => "T{" ++ ",".intercalate (gvsOut fs) ++ "}"
+def gvsOut : GVs → List String
+  | .nil => []
+  | .cons v r => gvOut v :: gvsOut r
+def gpsOut : GPs → List String
+  | .nil => []
+  | .cons k v r => ("s:" ++ bytesOut k ++ "=" ++ gvOut v) :: gpsOut r
+end
+
+def argsOut (gs : List GV) : String := "(" ++ "|".intercalate (gs.map gvOut) ++ ")"
+
+/-! ### deviation regions – decidable predicates over the request -/
+
+/-- regions of the numeric call path -/
 def devNum (v : Num) (t : NT) : List String :=
   if v.ty = t then [] else
   match v, t with
@@ -58,9 +183,239 @@ def devNum (v : Num) (t : NT) : List String :=
     | none => []
   | _, _ => []
 
+def addDev (ds : List String) (d : String) : List String := if ds.contains d then ds else ds ++ [d]
+def addDevs (ds es : List String) : List String := es.foldl addDev ds
+
+def zeroLike (v : JV) (t : GT) : Bool :=
+  -- does converting `undefined` to the element type give exactly the zero value the code leaves in a hole?
+  match t.base, t.depth with
+  | _, (_+1) => true              -- nil pointer
+  | .any, 0 => true               -- nil interface
+  | .bool, 0 => true              -- false
+  | _, _ => let _ := v; false
+
+mutual
+/-- regions met while converting value v to type t on the call path (syntactic walk, same shape as `conv`) -/
+def devConv (v : JV) (t : GT) : List String :=
+  if t.depth > 0 ∧ t.base.isAny ∧ !v.isNullish then ["call_pointer_to_interface_go_panic"] else
+  match t.base with
+  | .num nt => (match v with | .num n => devNum n nt | _ => [])
+  | .str => (match v with
+      | .num n => if goFmtV n = jsNumToString n then [] else ["call_number_to_string_gofmt"]
+      | _ => [])
+  | .slice tt => (match v with | .arr es => devElems es tt | _ => [])
+  | .map tt => (match v with | .obj ps => devProps ps (fun _ => tt) | .arr es => devElemsNoHole es tt | _ => [])
+  | .struct fs => (match v with
+      | .obj ps => devProps ps (fun k => match fieldIndexByName (.struct fs) k with
+          | some p => (typeAt (.struct fs) p).getD .any
+          | none => .any)
+      | _ => [])
+  | _ => []
+def devElems (es : JVs) (tt : GT) : List String :=
+  match es with
+  | .nil => []
+  | .hole r => addDevs (if zeroLike .undef tt then [] else ["call_array_hole_becomes_zero"]) (devElems r tt)
+  | .cons v r => addDevs (devConv v tt) (devElems r tt)
+def devElemsNoHole (es : JVs) (tt : GT) : List String :=
+  match es with
+  | .nil => []
+  | .hole r => devElemsNoHole r tt
+  | .cons v r => addDevs (devConv v tt) (devElemsNoHole r tt)
+def devProps (ps : JPs) (ft : Str → GT) : List String :=
+  match ps with
+  | .nil => []
+  | .cons k v r => addDevs (devConv v (ft k)) (devProps r ft)
+end
+
+def isGoPanic {α} : Res α → Bool | .goPanic => true | _ => false
+
+/-- does the store path take the number through float64 (toIntegerFloat / Value.float64) for this
+    payload kind `pk` and target kind `k`? (value.go:763-830, value_number.go:144) -/
+def viaFloat (pk k : IK) : Bool :=
+  (match k with | .int | .i64 | .uint | .u64 => true | _ => false) ||
+  (match pk with | .i32 | .u64 | .uint => true | _ => false)
+
+/-- a float64 that did not make the store path fail, going into an integer kind -/
+def devStoreFloatToInt (k : IK) (x : FV) : List String :=
+  if isNaN x then ["store_nan_becomes_zero"]
+  else match x with
+    | .fin true m e => if !isIntegral m e then ["store_negative_fraction_truncates"] else []
+    | .fin false m e =>
+      let a : Int := truncAbs m e
+      if (a = 2^63 ∧ (k = .int ∨ k = .i64)) ∨ (a = 2^64 ∧ (k = .uint ∨ k = .u64)) then ["store_2p63_wraps"] else []
+    | _ => []
+
+/-- regions of the store path (Value.toReflectValue, used by slice/array/map writes) – predicates on (v, t) -/
+def devStore (v : JV) (t : GT) : List String :=
+  match t with
+  | .num nt =>
+    (match v with
+     | .arr _ | .obj _ => []
+     | .undef | .null | .bool _ | .str _ => ["store_coerces_non_number"]      -- ToNumber coercion instead of TypeError
+     | .num (.f32 _) => ["store_float32_value_go_panic"]                       -- Value.float64 has no float32 case
+     | .num n =>
+       if isGoPanic (toReflectValue v t) then ["store_error_is_go_panic"]      -- the error is a plain Go error, panic(err)
+       else match nt, n with
+         | .f64, .int _ i => if Spec.sameNumber n (ofInt i) then [] else ["store_float_rounds"]
+         | .f32, _ => if Spec.sameNumber n (toF32 (Spec.asF64 n)) then [] else ["store_float_rounds"]
+         | .i k, .f64 x => devStoreFloatToInt k x
+         | .i k, .int pk i =>
+           if viaFloat pk k then
+             (if Spec.sameNumber n (ofInt i) then devStoreFloatToInt k (ofInt i) else ["store_int_via_float_rounds"])
+           else []
+         | _, _ => [])
+  | .any => (match v with | .undef | .null => ["store_nil_into_interface_go_panic"] | _ => [])
+  | .bool | .str =>
+    -- the fraction guard (value.go:746) runs for every non-float target kind, also bool and string
+    (match v with
+     | .num (.f32 x) | .num (.f64 x) => if fracPositive x then ["store_error_is_go_panic"] else []
+     | _ => [])
+  | _ => []
+
 def devOut (ds : List String) : String := if ds.isEmpty then "-" else ",".intercalate ds
 
 def reply (m s : String) (dev : List String) : String := m ++ " " ++ s ++ " " ++ devOut dev
+
+/-! ### histories -/
+
+def nat? (s : String) : Option Nat := s.toNat?
+
+/-- a small Go-side integer converted to the element type (the harness does `reflect.ValueOf(n).Convert(et)`) -/
+def goElem (et : GT) (n : Int) : GV :=
+  match et with
+  | .num (.i k) => .num (.int k n)
+  | .num .f32 => .num (.f32 (ofInt n))
+  | .num .f64 => .num (.f64 (ofInt n))
+  | .str => .str (intDec n)
+  | .bool => .bool (n != 0)
+  | .any => .any (.num (.int .int n))
+  | t => t.zero
+
+def sop? (et : GT) (s : String) : Option SOp :=
+  match s.splitOn ":" with
+  | ["jr", i] => (nat? i).map .jsRead
+  | "jw" :: i :: rest => do let i ← nat? i; let v ← jv? (":".intercalate rest); pure (.jsWrite i v)
+  | ["jl"] => some .jsLen
+  | ["jsl", n] => (nat? n).map .jsSetLen
+  | ["jd", i] => (nat? i).map .jsDelete
+  | ["gr", i] => (nat? i).map .goRead
+  | ["gw", i, n] => do let i ← nat? i; let n ← int? n; pure (.goWrite i (goElem et n))
+  | ["gl"] => some .goLen
+  | ["ga", n, c] => do let n ← int? n; let c ← nat? c; pure (.goAppend (goElem et n) c)
+  | _ => none
+
+def allSome {α} : List (Option α) → Option (List α)
+  | [] => some []
+  | none :: _ => none
+  | some a :: r => (allSome r).map (a :: ·)
+
+def obsOut : Obs → String
+  | .val g => "v:" ++ gvOut g
+  | .undef => "u"
+  | .len n => "len:" ++ toString n
+  | .unit => "-"
+  | .ignored => "ign"
+  | .goPanic => "gopanic"
+  | .typeErr => "throw:TypeError"
+  | .rangeErr => "throw:RangeError"
+
+def listGVs (l : List GV) : GVs := GVs.ofList l
+
+def sliceOut (r : SliceSt × List Obs) : String :=
+  let (s, os) := r
+  let failed := os.any Obs.isFail
+  ";".intercalate (os.map obsOut) ++
+    (if failed then "" else ";G" ++ gvOut (.slice (listGVs (s.view s.go))) ++ ";J" ++ gvOut (.slice (listGVs (s.view s.js))))
+
+/-- regions a slice history may touch: store regions of every write, and the SetLen panic when the model hits it -/
+def devSlice (st : SliceSt) (ops : List SOp) : List String :=
+  let writes := ops.foldl (fun acc op => match op with | .jsWrite _ v => addDevs acc (devStore v st.et) | _ => acc) []
+  let rec go (s : SliceSt) (ops : List SOp) (fuel : Nat) : Bool :=
+    match fuel, ops with
+    | 0, _ => false
+    | _, [] => false
+    | f+1, op :: rest =>
+      match op with
+      | .jsSetLen n => if n ≠ s.js.len ∧ n < s.js.cap then true else go (sliceStep Spec.store s op).1 rest f
+      | _ =>
+        let r := sliceStep Spec.store s op
+        if r.2.isFail then false else go r.1 rest f
+  if go st ops (ops.length + 1) then addDev writes "slice_setlen_unaddressable_go_panic" else writes
+
+def mop? (et : GT) (s : String) : Option MOp :=
+  match s.splitOn ":" with
+  | ["jr", k] => some (.jsRead (asciiStr k))
+  | "jw" :: k :: rest => do let v ← jv? (":".intercalate rest); pure (.jsWrite (asciiStr k) v)
+  | ["jd", k] => some (.jsDelete (asciiStr k))
+  | ["jk"] => some .jsKeys
+  | ["gr", k] => some (.goRead (asciiStr k))
+  | ["gw", k, n] => do let n ← int? n; pure (.goWrite (asciiStr k) (goElem et n))
+  | ["gd", k] => some (.goDelete (asciiStr k))
+  | _ => none
+
+def mobsOut : MObs → String
+  | .val g => "v:" ++ gvOut g
+  | .undef => "u"
+  | .unit => "-"
+  | .keys m => "k:" ++ gvOut (.map m)
+  | .goPanic => "gopanic"
+  | .typeErr => "throw:TypeError"
+  | .rangeErr => "throw:RangeError"
+
+def mapOut (r : GPs × List MObs) : String :=
+  let (m, os) := r
+  let failed := os.any MObs.isFail
+  ";".intercalate (os.map mobsOut) ++ (if failed then "" else ";G" ++ gvOut (.map m))
+
+def initMap (et : GT) (s : String) : Option GPs :=
+  if s = "-" then some .nil else
+  (allSome ((s.splitOn ",").map (fun kv => match kv.splitOn "=" with
+    | [k, n] => (int? n).map (fun n => (asciiStr k, goElem et n))
+    | _ => none))).map (fun l => l.foldl (fun m kv => GPs.set kv.1 kv.2 m) .nil)
+
+def path? (s : String) : Option (List Nat) := allSome ((s.splitOn ".").map nat?)
+
+def top? (s : String) : Option TOp :=
+  match s.splitOn ":" with
+  | ["jr", k] => some (.jsRead (asciiStr k))
+  | "jw" :: k :: rest => do let v ← jv? (":".intercalate rest); pure (.jsWrite (asciiStr k) v)
+  | ["gr", p] => (path? p).map .goRead
+  | _ => none
+
+def tobsOut : TObs → String
+  | .val g => "v:" ++ gvOut g
+  | .undef => "u"
+  | .unit => "-"
+  | .shadow => "shadow"
+  | .shadowRead => "shadowread"
+  | .goPanic => "gopanic"
+  | .typeErr => "throw:TypeError"
+  | .rangeErr => "throw:RangeError"
+
+def structOut (r : StructSt × List TObs) : String :=
+  let (g, os) := (r.1.cur, r.2)
+  let failed := os.any TObs.isFail
+  ";".intercalate (os.map tobsOut) ++ (if failed then "" else ";G" ++ gvOut g)
+
+def optEq (a b : Option (List Nat)) : Bool := a == b
+
+def devStruct (st : GT) (ops : List TOp) : List String :=
+  ops.foldl (fun acc op => match op with
+    | .jsRead name =>
+      -- a `json:"-"` field is found by the FieldByName fallback on reads but not by fieldIndexByName on writes
+      if optEq (structGetPath st name) (fieldIndexByName st name) then acc else addDev acc "struct_dash_tag_read_only"
+    | .jsWrite name v =>
+      (match fieldIndexByName st name with
+       | some p => addDevs acc (devConv v ((typeAt st.base p).getD .any))
+       | none => acc)
+    | _ => acc) []
+
+def pathOut : Option (List Nat) → String
+  | none => "none"
+  | some p => "path:" ++ ".".intercalate (p.map toString)
+
+def retOut (k : Nat) : String :=
+  if k = 0 then "undefined" else if k = 1 then "num:1" else "arr:" ++ ",".intercalate ((List.range k).map (fun i => toString (i+1)))
 
 def handle (ws : List String) : String :=
   match ws with
@@ -68,6 +423,64 @@ def handle (ws : List String) : String :=
     | some t, some v =>
       reply (resOut numOut (convertNumeric v t)) (resOut numOut (Spec.convertNumeric v t)) (devNum v t)
     | _, _ => "bad-op"
+  | "call" :: fv :: k :: rest =>
+    (match nat? k with
+     | none => "bad-op"
+     | some k =>
+       match allSome ((rest.take k).map type?), allSome ((rest.drop k).map jv?) with
+       | some ts, some as =>
+         let sig : Sig := { ins := ts, variadic := fv = "V" }
+         let dev :=
+           if sig.variadic then
+             let fixedT := ts.take (k - 1)
+             let et := ts.getLastD .any
+             let d1 := (List.zip (as.take (k - 1)) fixedT).foldl (fun acc p => addDevs acc (devConv p.1 p.2)) []
+             match as.drop (k - 1) with
+             | [a] => (match conv modelLeaf a (.slice et), conv Spec.leaf a (.slice et) with
+                       | .typeErr, .typeErr => addDevs d1 (devConv a et)
+                       | _, _ => addDevs d1 (devConv a (.slice et)))
+             | tail => tail.foldl (fun acc a => addDevs acc (devConv a et)) d1
+           else (List.zip as ts).foldl (fun acc p => addDevs acc (devConv p.1 p.2)) []
+         reply (resOut argsOut (callWrapper modelLeaf sig as)) (resOut argsOut (callWrapper Spec.leaf sig as)) dev
+       | _, _ => "bad-op")
+  | ["store", t, v] => match type? t, jv? v with
+    | some t, some v =>
+      reply (resOut gvOut (toReflectValue v t)) (resOut gvOut (Spec.convertCallParameter v t)) (devStore v t)
+    | _, _ => "bad-op"
+  | ["slice", t, cap, init, ops] =>
+    (match type? t, nat? cap with
+     | some et, some cap =>
+       let initL : Option (List Int) := if init = "-" then some [] else allSome ((init.splitOn ",").map int?)
+       let opsL := if ops = "-" then some [] else allSome ((ops.splitOn ";").map (sop? et))
+       (match initL, opsL with
+        | some il, some ol =>
+          let st := SliceSt.init et (il.map (goElem et)) cap
+          reply (sliceOut (sliceRun modelStore st ol)) (sliceOut (sliceRun Spec.store st ol)) (devSlice st ol)
+        | _, _ => "bad-op")
+     | _, _ => "bad-op")
+  | ["map", t, init, ops] =>
+    (match type? t with
+     | some et =>
+       let opsL := if ops = "-" then some [] else allSome ((ops.splitOn ";").map (mop? et))
+       (match initMap et init, opsL with
+        | some m, some ol =>
+          let dev := ol.foldl (fun acc op => match op with | .jsWrite _ v => addDevs acc (devStore v et) | _ => acc) []
+          reply (mapOut (mapRun modelStore et m ol)) (mapOut (mapRun Spec.store et m ol)) dev
+        | _, _ => "bad-op")
+     | none => "bad-op")
+  | ["struct", t, ops] =>
+    (match type? t with
+     | some st =>
+       (match allSome ((ops.splitOn ";").map top?) with
+        | some ol =>
+          reply (structOut (structRun modelLeaf true st ⟨st.zero, []⟩ ol)) (structOut (structRun Spec.leaf false st ⟨st.zero, []⟩ ol)) (devStruct st ol)
+        | none => "bad-op")
+     | none => "bad-op")
+  | ["field", t, name] =>
+    (match type? t with
+     | some st => reply (pathOut (fieldIndexByName st (asciiStr name))) (pathOut (Spec.fieldLookup st (asciiStr name))) []
+     | none => "bad-op")
+  | ["ret", k] => (match nat? k with | some k => reply (retOut k) (retOut k) [] | none => "bad-op")
   | _ => "bad-op"
 
 end OttoVerif.C16.Driver
